@@ -428,4 +428,6 @@ def run(ctx):
     rep.check(r6, ok, 'read_u32:accumulate', 'read_u32 returns (value << 8) | byte, bit-exact for every value and byte: %s (expression %s)' % (ok, short(rv)[:60]))
     okv, detv, locv = rpc_verifier_never_awaited(F)
     rep.check(r6, okv, 'verifier-length-never-awaited', 'a call is complete when its verifier-length word is (calls with any verifier are answered): ' + detv, locv)
+    dispatch_sound(ctx, 'C16', 'a call reaches the RPC responders')
+
 
